@@ -31,11 +31,6 @@ pub uninterp spec fn spec_capacity<T, A: std::alloc::Allocator>(v: &VecDeque<T, 
 pub assume_specification<T, A: std::alloc::Allocator> [VecDeque::<T, A>::capacity] (v: &VecDeque<T, A>) -> (r: usize)
     ensures r == spec_capacity(v), r >= v@.len();
 // ---- environment (sliced stand-ins for types of the repository; only the fields the function touches)
-#[derive(Clone, Copy, PartialEq, Eq, Structural, Debug)]
-pub struct StatusCode { pub bits: u32 }
-impl StatusCode {
-    pub const OVERFLOW: StatusCode = StatusCode { bits: 0x480 };
-}
 impl std::ops::BitOr for StatusCode {
     type Output = StatusCode;
     #[verifier::external_body]
@@ -72,12 +67,12 @@ pub struct MonitoredItemModifyRequest { pub monitored_item_id: u32, pub requeste
 pub uninterp spec fn spec_revised_queue_size(server_state: &ServerState, requested: usize) -> usize;
 
 // ---- specification
-// the notification as stored: the sample with the overflow bit (InfoBits Overflow, 0x480) set in its status
+// the notification as stored: the sample with the overflow bit (the repository's StatusCode::OVERFLOW, 0x80) set in its status
 pub open spec fn with_overflow(n: Notification) -> Notification {
     match n {
         Notification::MonitoredItemNotification(m) => Notification::MonitoredItemNotification(MonitoredItemNotification {
             client_handle: m.client_handle,
-            value: DataValue { status: Some(StatusCode { bits: (match m.value.status { Some(s) => s, None => StatusCode { bits: 0 } }).bits | 0x480 }), v: m.value.v },
+            value: DataValue { status: Some(StatusCode { bits: (match m.value.status { Some(s) => s, None => StatusCode { bits: 0 } }).bits | StatusCode::OVERFLOW.bits }), v: m.value.v },
         }),
         Notification::Event(e) => Notification::Event(e),
     }
@@ -179,6 +174,7 @@ def build(manifest):
     g = splice_contract(g, SPEC['modify'][1], SPEC['modify'][0])
     a = Asm()
     a.add('#![feature(allocator_api)]\nuse vstd::prelude::*;\nverus! {\nglobal size_of usize == 8;\n', 'prelude', 'env')
+    a.add(status_code_struct(manifest), 'status codes', 'env')      # every status code of the real file (D14)
     a.add(ENV, 'env', 'env')
     a.add(norm_vis(ttr) + '\n' + norm_vis(st), 'types', 'env')
     a.add(MODIFY_ENV, 'env2', 'env')
